@@ -242,7 +242,7 @@ type vfC07Job struct {
 	Budget   uint64 `json:"budget"`
 	Thorough bool   `json:"thorough"`
 	Scratch  string `json:"scratch"`
-	Single   int    `json:"single"` // >=0: run only this mutant, with allocation profiling
+	Single   int    `json:"single"`   // >=0: run only this mutant, with allocation profiling
 	Deadline int64  `json:"deadline"` // unix seconds after which the worker stops (0: none)
 	CPUMs    int64  `json:"cpu_ms"`   // CPU time one mutant may use (0: no limit)
 }
